@@ -6,11 +6,13 @@ Import ListNotations.
 Open Scope R_scope.
 
 Section YamlProofs.
-  Variable crs_facts : pentry -> bool * cu * (cu -> R).
+  Variable crs_facts : pentry -> bool * cu * (cu -> R * R).
   Notation arearec := (area_rec (T:=R)).
 
   Definition scale4 (k : R) (e : R * R * R * R) : R * R * R * R :=
     let '(a, b, c, d) := e in (a * k, b * k, c * k, d * k).
+  (* PROJ's (at most two) unitconvert steps from kilometres to the reparsed CRS's metres *)
+  Definition km_factor (fac : cu -> R * R) : R := fst (fac Ckm) * snd (fac Ckm).
   (* the units written next to the extent are metres (any spelling) or kilometres *)
   Definition metre_tok (u : utok) : Prop := u = UTm \/ u = UTmeters \/ u = UTmetres.
   (* what pyproj has to say about the CRS parsed back from the dumped projection entry *)
@@ -21,15 +23,15 @@ Section YamlProofs.
     (geo = true <-> cunits = Cdeg) /\
     match dumped_units a with
     | None => True
-    | Some u => geo = false /\ cunits = Cm /\ (metre_tok u \/ (u = UTkm /\ 0 < fac Ckm))   (* the dict was written without its units: metres *)
+    | Some u => geo = false /\ cunits = Cm /\ (metre_tok u \/ (u = UTkm /\ 0 < fst (fac Ckm) /\ 0 < snd (fac Ckm)))   (* the dict was written without its units: metres *)
     end.
   Definition loaded_extent (a : arearec) : R * R * R * R :=
     match dumped_units a with
-    | Some UTkm => let '(_, _, fac) := crs_facts (proj_entry a) in scale4 (fac Ckm) (r_ext a)
+    | Some UTkm => let '(_, _, fac) := crs_facts (proj_entry a) in scale4 (km_factor fac) (r_ext a)
     | _ => r_ext a
     end.
   Definition loaded_of (a : arearec) : loaded (T:=R) :=
-    {| l_id := r_id a; l_desc := r_desc a; l_proj := proj_entry a; l_out := Area (loaded_extent a) (r_shape a) |}.
+    {| l_id := r_id a; l_desc := r_desc a; l_projid := None; l_proj := proj_entry a; l_out := Area (loaded_extent a) (r_shape a) |}.
 
   Lemma conv_extent_default pf pi fac geo cunits x y :
     (geo = true <-> cunits = Cdeg) ->
@@ -39,13 +41,14 @@ Section YamlProofs.
     - assert (geo = true) as -> by (apply Hwf; reflexivity). reflexivity.
     - assert (geo = false) as -> by (destruct geo; [destruct Hwf as [H _]; discriminate (H eq_refl)|reflexivity]). reflexivity.
     - assert (geo = false) as -> by (destruct geo; [destruct Hwf as [H _]; discriminate (H eq_refl)|reflexivity]). reflexivity.
+    - assert (geo = false) as -> by (destruct geo; [destruct Hwf as [H _]; discriminate (H eq_refl)|reflexivity]). reflexivity.
   Qed.
   Lemma conv_extent_metre pf pi fac u x y units :
     metre_tok u ->
     convert_units RO pf pi fac false Cm (Some ((x, y), Some u)) Nextent units None = Ok (Some (x, y)).
   Proof. intros [-> | [-> | ->]]; reflexivity. Qed.
   Lemma conv_extent_km pf pi fac x y units :
-    convert_units RO pf pi fac false Cm (Some ((x, y), Some UTkm)) Nextent units None = Ok (Some (x * fac Ckm, y * fac Ckm)).
+    convert_units RO pf pi fac false Cm (Some ((x, y), Some UTkm)) Nextent units None = Ok (Some (x * fst (fac Ckm) * snd (fac Ckm), y * fst (fac Ckm) * snd (fac Ckm))).
   Proof. reflexivity. Qed.
 
   Lemma nz_shape (h w : Z) (e : R * R * R * R) : (1 <= h)%Z -> (1 <= w)%Z ->
@@ -61,8 +64,8 @@ Section YamlProofs.
     destruct (crs_facts pe) as [[geo cunits] fac] eqn:Hf.
     intros (Hh & Hw & (Hx & Hy) & Hwf & Hu).
     assert (Hcreate : forall du ext',
-      match du with None => True | Some u => geo = false /\ cunits = Cm /\ (metre_tok u \/ (u = UTkm /\ 0 < fac Ckm)) end ->
-      ext' = match du with Some UTkm => scale4 (fac Ckm) (e0, e1, e2, e3) | _ => (e0, e1, e2, e3) end ->
+      match du with None => True | Some u => geo = false /\ cunits = Cm /\ (metre_tok u \/ (u = UTkm /\ 0 < fst (fac Ckm) /\ 0 < snd (fac Ckm))) end ->
+      ext' = match du with Some UTkm => scale4 (km_factor fac) (e0, e1, e2, e3) | _ => (e0, e1, e2, e3) end ->
       create_area_def RO (fun _ => None) (fun _ => None) fac geo cunits
         {| a_width := None; a_height := None; a_extent := Some (e0, e1, e2, e3, du); a_shape := Some (IZR h, IZR w);
            a_ul := None; a_center := None; a_resolution := None; a_radius := None; a_units := None |} = Area ext' (h, w)).
@@ -70,10 +73,18 @@ Section YamlProofs.
       cbn [a_width a_height a_extent a_shape a_ul a_center a_resolution a_radius a_units bind].
       rewrite round_shape_R. cbn [fst snd bind]. rewrite !round_dim_exact.
       destruct du as [u|].
-      - destruct Hdu as (-> & -> & [Hm | [-> Hk]]).
+      - destruct Hdu as (-> & -> & [Hm | [-> [Hk1 Hk2]]]).
         + rewrite !(conv_extent_metre _ _ _ u) by assumption. cbn [bind convert_units fst snd strip].
           rewrite make_area_ok by assumption. destruct Hm as [-> | [-> | ->]]; reflexivity.
-        + rewrite !conv_extent_km. cbn [bind convert_units fst snd strip scale4]. rewrite make_area_ok by (assumption || nra). reflexivity.
+        + rewrite !conv_extent_km. cbn [bind convert_units fst snd strip scale4]. unfold km_factor.
+          assert (0 < fst (fac Ckm) * snd (fac Ckm)) by (apply Rmult_lt_0_compat; assumption).
+          replace (e0 * (fst (fac Ckm) * snd (fac Ckm))) with (e0 * fst (fac Ckm) * snd (fac Ckm)) by ring.
+          replace (e1 * (fst (fac Ckm) * snd (fac Ckm))) with (e1 * fst (fac Ckm) * snd (fac Ckm)) by ring.
+          replace (e2 * (fst (fac Ckm) * snd (fac Ckm))) with (e2 * fst (fac Ckm) * snd (fac Ckm)) by ring.
+          replace (e3 * (fst (fac Ckm) * snd (fac Ckm))) with (e3 * fst (fac Ckm) * snd (fac Ckm)) by ring.
+          rewrite make_area_ok; [reflexivity|assumption|assumption| |].
+          * rewrite !Rmult_assoc. apply Rmult_lt_compat_r; assumption.
+          * rewrite !Rmult_assoc. apply Rmult_lt_compat_r; assumption.
       - rewrite !conv_extent_default by assumption. cbn [bind convert_units fst snd strip]. now rewrite make_area_ok by assumption. }
     destruct epsg as [n|]; [|destruct units as [u|]]; subst pe.
     - cbv [load_one capture_subarguments dget dpop validate_sub_arg_list mem key_eqb existsb forallb map filter fst snd negb
